@@ -454,11 +454,20 @@ def rule6_nodrop(ctx, fl):
                         is_thr = isinstance(val, str) and c.id in (f.sources(root) if root is not None else set())
                         flds = f.ap(val).fields if isinstance(val, str) else []
                         is_sched = bool(flds) and flds[0] == 'myth_running_env.sched'
+                        # the value arrives over the CFG edge b_ -> phi block: that edge is the tested edge itself, or lies behind it
+                        def on_side(side):
+                            for br, nn, nl in nts_all:
+                                sx = nn if side == 'nn' else nl
+                                if (br.block.id == b_ and sx == ti.block.id) or f.edge_dominates(br.block.id, sx, term):
+                                    # not both sides: the other successor must not lead here the same way
+                                    if not (br.block.id == b_ and nn == nl):
+                                        return True
+                            return False
                         if is_thr:
-                            if not any(f.edge_dominates(br.block.id, nn, term) for br, nn, nl in nts_all):
+                            if not on_side('nn'):
                                 okt, why = False, 'the thread\'s context is chosen where the thread was not tested non-NULL'
                         elif is_sched:
-                            if not any(f.edge_dominates(br.block.id, nl, term) for br, nn, nl in nts_all):
+                            if not on_side('nl'):
                                 okt, why = False, 'the scheduler context is chosen although a thread was obtained'
                         else:
                             okt, why = False, 'one way into the switch leaves the target context undefined'
